@@ -59,6 +59,14 @@ func checkC05(c *Ctx, r *Report) {
 	c05Tables(c, r)
 	c05Plumbing(c, r)
 	c05Split(c, r, "R5.3")
+	// R5.8: a request asks the device the fields belong to: every batch (also the follow-up ones
+	// after a split) carries its group's address and unit id (C06 R6.2 batch initialisation)
+	{
+		tmp := newReport(r.Prop, r.Tier)
+		c06Grouping(c, tmp)
+		r.instance("R5.8", copyItems(tmp, r, "R6.2", "R5.8", "batch"))
+		r.floor("R5.8", 1)
+	}
 	r.floor("R5.7", 8)
 	c05FullRange(c, r, "R5.7")
 	c05Loops(c, r)
@@ -199,6 +207,21 @@ func c05Tables(c *Ctx, r *Report) {
 			r.ok("R5.1", id, what, pos, true)
 		} else {
 			r.fail("R5.1", id, "registerSize disagrees with the accessor ExtractFrom uses for this type", pos, detail, "size:"+detail)
+		}
+		// a value spanning more than one register (or a string) depends on the field's byte order:
+		// the accessor used must be one that takes it
+		if isString || (wantRegs != nil && wantRegs.c >= 2) {
+			takesOrder := false
+			for i := 0; i < sig.Params().Len(); i++ {
+				if strings.HasSuffix(types.TypeString(sig.Params().At(i).Type(), nil), "ByteOrder") {
+					takesOrder = true
+				}
+			}
+			if takesOrder {
+				r.ok("R5.2", id, "multi-register value is decoded by an accessor that takes the field's byte order ("+acc.callee.Name()+")", posOfCall(c, acc), true)
+			} else {
+				r.fail("R5.2", id, "multi-register value is decoded by "+acc.callee.Name()+", which ignores the field's byte order", posOfCall(c, acc), "", "byteorder-ignored")
+			}
 		}
 		// argument roles
 		okArgs := true
@@ -595,6 +618,45 @@ func checkC06(c *Ctx, r *Report) {
 	r.floor("R6.3", 8)
 	r.floor("R6.W", 2)
 	c05Split(c, r, "R6.1")
+	// R6.5: the packet on the wire asks for what the descriptor says: the encoders of the request
+	// types split constructs put unit id, start and quantity into the frame as the specification
+	// lays them out (C01 R1.1 for those types)
+	{
+		crc := c.fnMust("packet", "CRC16")
+		built := map[*types.Named]bool{}
+		split := c.fnMust("", "split")
+		for _, b := range split.Blocks {
+			for _, in := range b.Instrs {
+				if call, ok := in.(*ssa.Call); ok {
+					if sc := call.Common().StaticCallee(); sc != nil && sc.Pkg != nil && strings.HasSuffix(sc.Pkg.Pkg.Path(), "/packet") && sc.Signature.Results().Len() == 2 {
+						if p, ok := sc.Signature.Results().At(0).Type().(*types.Pointer); ok {
+							if tn, ok := p.Elem().(*types.Named); ok {
+								built[tn] = true
+							}
+						}
+					}
+				}
+			}
+		}
+		for _, m := range bytesMethods(c, "packet") {
+			tn := m.Signature.Recv().Type().(*types.Named)
+			if !built[tn] {
+				continue
+			}
+			r.instance("R6.5", 1)
+			id := fnID(m)
+			r.funcs[id] = true
+			er := runEncoder(c, "packet", m, crc)
+			if !er.okay {
+				r.undecided("R6.5", id, "encoder not interpretable: "+er.why, c.pos(m.Pos()))
+				continue
+			}
+			tmp := newReport(r.Prop, r.Tier)
+			c01Encoder(c, tmp, er, id, hasMBAP(tn), false)
+			copyItems(tmp, r, "R1.1", "R6.5")
+		}
+		r.floor("R6.5", 8)
+	}
 	r.floor("R6.4", 8)
 	c05FullRange(c, r, "R6.4")
 	c06ErrCheck(c, r)
